@@ -367,6 +367,14 @@ func (b *xbuilder) load(u *ssa.UnOp, sub func(ssa.Value) *X) *X {
 			return &y
 		}
 		if !esc && len(stores) == 0 {
+			if fieldWritten(al) {
+				// struct variable initialised field by field (x := T{...})
+				if cl := b.complit(al, sub); cl != nil {
+					cl.V = u
+					cl.Cell = al
+					return cl
+				}
+			}
 			return &X{Op: "const", Name: "zero:" + b.short(deref(al.Type()).String()), V: u, Cell: al}
 		}
 		return &X{Op: "var", Name: al.Comment, V: al, Cell: al}
@@ -449,7 +457,7 @@ func (c *Ctx) CallX(in ssa.CallInstruction) *X {
 // strip removes type assertions and single-edge phis.
 func strip(x *X) *X {
 	for x != nil {
-		if x.Op == "assert" {
+		if x.Op == "assert" || x.Op == "deref" {
 			x = x.Args[0]
 			continue
 		}
@@ -631,16 +639,10 @@ func (c *Ctx) ReachingStore(x *X, at ssa.Instruction) *X {
 		return nil
 	}
 	var pick *ssa.Store
+	var local []*ssa.Store
 	for _, st := range stores {
 		if st.Parent() == at.Parent() {
-			if Precedes(st, at) {
-				if pick != nil {
-					return nil
-				}
-				pick = st
-			} else if MayFollow(st, at) {
-				return nil
-			}
+			local = append(local, st)
 			continue
 		}
 		// store inside a closure: its MakeClosure must not precede the use
@@ -651,6 +653,29 @@ func (c *Ctx) ReachingStore(x *X, at ssa.Instruction) *X {
 		mc := c.xb.makeClosureOf(f)
 		if mc == nil || mc.Parent() != at.Parent() || MayFollow(mc, at) {
 			return nil
+		}
+	}
+	// the last store that precedes the use on every path, with every other
+	// store either always before it or only after the use
+	for _, s := range local {
+		if !Precedes(s, at) {
+			continue
+		}
+		ok := true
+		for _, t := range local {
+			if t == s {
+				continue
+			}
+			if Precedes(t, s) {
+				continue
+			}
+			if !MayFollow(t, at) {
+				continue // t can only run after the use
+			}
+			ok = false
+		}
+		if ok {
+			pick = s
 		}
 	}
 	if pick == nil {
